@@ -38,7 +38,7 @@ def run_compile_probes(build_dir, probes, log):
             detail = " | ".join(errors[:4])
             if "could not compile `rust-cc" in err or "could not compile `rust-cc-derive" in err:
                 got = "dependency-build-failure"
-            elif text and text in err:
+            elif text and all(t in err for t in ([text] if isinstance(text, str) else text)):
                 got = "fail"
             else:
                 got = "fail-other"
@@ -92,14 +92,14 @@ def main():
         cp_dir, _ = gen.write_compile_probes(crate)
         case_files, _ = gen.write_coq_chunks(cases, out)
         C.build_coq_model(log)
-        rows5 = C.eval_cases(case_files, log, width=5)
-        # the 5th vector holds sanity flags of the generated description itself
+        rows5 = C.eval_cases(case_files, log, width=6)
+        # the last vector holds sanity flags of the generated description itself
         rows = []
         for cid, vecs in rows5:
-            flags = vecs[4]
+            flags = vecs[5]
             if flags[:3] != [1, 1, 1]:
                 raise C.CheckError("case %d: generated description is not well formed / not accepted by the model: %r" % (cid, flags))
-            rows.append((cid, vecs[:4]))
+            rows.append((cid, vecs[:5]))
         for c in cases:
             c["coq"] = c["tdesc"] + " " + c["tvalue"]
             c["ty"] = c["typedef"].replace("\n", " ")
@@ -117,6 +117,16 @@ def main():
             run_rows = [r for r in rows if r[0] in keep_ids]
         actual, crash = C.run_probe(binary, log)
         mismatches, samples = C.compare(run_cases, run_rows, actual, crash)
+        # plain types (no field needs drop): needs_drop::<T>() must equal the model's emits_drop
+        emits_by_type = {c["type_name"]: dict(rows5)[c["id"]][5][3] for c in cases}
+        got_nd = dict(ln.split()[1:3] for ln in actual if ln.startswith("needsdrop "))
+        for c in run_cases:
+            if c["plain"] and c["name"].endswith("#0"):
+                e, g = str(emits_by_type[c["type_name"]]), got_nd.get(c["type_name"])
+                if e != g:
+                    mismatches.append({"id": c["id"], "name": c["name"] + " (needs_drop)", "rust_type": c["ty"], "model_term": c["tdesc"],
+                                       "expected": "needsdrop %s %s  (= emits_drop d)" % (c["type_name"], e),
+                                       "actual": "needsdrop %s %s" % (c["type_name"], g), "expected_all": [], "actual_all": []})
         if compile_failure:
             by_name = {}
             for c in cases:
@@ -128,7 +138,7 @@ def main():
         cp_build_dir, _ = C.prepare_crate(cp_dir, a.repo, log)
         compile_results = run_compile_probes(cp_build_dir, gen.COMPILE_PROBES, log)
         # the Drop half of the model, tied to the compile probes: emits_drop d = negb (no_drop d)
-        emits = {c["id"]: dict(rows5)[c["id"]][4][3] for c in cases}
+        emits = {c["id"]: dict(rows5)[c["id"]][5][3] for c in cases}
         for c in cases:
             nd = "#[rust_cc(unsafe_no_drop)]" in c["typedef"]
             if emits[c["id"]] != (0 if nd else 1):
